@@ -19,9 +19,9 @@ type Finding struct {
 
 type VerifyResult struct {
 	Findings []Finding
-	A, B     int            // chosen coefficients of the loop index / counter
-	Exit     int            // constant stack effect at the template's end
-	ScopeReq []string       // scope variables read at relative scope depth 0 (needs an enclosing scope)
+	A, B     int              // chosen coefficients of the loop index / counter
+	Exit     int              // constant stack effect at the template's end
+	ScopeReq []string         // scope variables read at relative scope depth 0 (needs an enclosing scope)
 	ChildAt  map[int]ChildCtx // per child event: scope depth and defined variables
 	Defined  map[int][]string
 }
@@ -34,14 +34,14 @@ type ChildCtx struct {
 
 // form: depth = K + CI*I + CC*C + Σ L[slot]*|slot|
 type form struct {
-	K      int
-	CI, CC int
-	L      map[string]int
-	Top    string // symbolic value on top of the stack: "var:size", "len:Nodes", "int:0"…
-	SD     int    // relative scope depth
-	IMin, CMin int // proven lower bounds of the loop index / counter on every path reaching this point
-	Def    map[string]bool // scope variables certainly stored since the innermost Begin (flattened per depth by prefix)
-	DefStack []map[string]bool
+	K          int
+	CI, CC     int
+	L          map[string]int
+	Top        string          // symbolic value on top of the stack: "var:size", "len:Nodes", "int:0"…
+	SD         int             // relative scope depth
+	IMin, CMin int             // proven lower bounds of the loop index / counter on every path reaching this point
+	Def        map[string]bool // scope variables certainly stored since the innermost Begin (flattened per depth by prefix)
+	DefStack   []map[string]bool
 }
 
 func (f form) clone() form {
@@ -123,9 +123,9 @@ func childEffect(nk *NodeKinds, parentKind, slot string, pairSlots map[string]bo
 }
 
 type VerifyConf struct {
-	Sigs      map[string]*OpSig
-	PairSlots map[string]bool // "MapNode.Pairs": children have effect +2
-	Effect    func(kind string) int
+	Sigs                        map[string]*OpSig
+	PairSlots                   map[string]bool // "MapNode.Pairs": children have effect +2
+	Effect                      func(kind string) int
 	IndexVar, SizeVar, CountVar string // scope variable names playing the loop roles (derived by the caller)
 }
 
@@ -559,7 +559,7 @@ func nonZero(m map[string]int) []string {
 	return out
 }
 
-func isLoad(sig *OpSig) bool { return sig != nil && sig.Scope == "load" }
+func isLoad(sig *OpSig) bool                { return sig != nil && sig.Scope == "load" }
 func isScopeLoad(sig *OpSig, e TEvent) bool { return false }
 
 func appendUniq(s []string, v string) []string {
